@@ -6,6 +6,8 @@
 (*   raised      [type, where, msg]          if the merge raised           *)
 (*   D, merged   decisions and merged document                             *)
 (*   valid       nbformat's verdict on merged for its declared minor       *)
+(*   jsvalid     jsonschema's verdict on the JSON round-tripped decision   *)
+(*               list against the published merge_format.schema.json       *)
 (*   ld, rd      the base->local / base->remote diffs (symmetry carve-out) *)
 (*   law         "identity" | "onesided" | "agreement"  + expected         *)
 (*   sw          [raised?, D, merged] the same merge with roles swapped    *)
@@ -46,7 +48,7 @@ Clauses(ev, run) ==
     <<"OrderedOK", OrderedOK(b, D)>>,
     <<"SamePathContiguous", SamePathContiguous(b, D)>>,
     <<"DecisionSchemaOK", AllDecisionSchemaOK(D)>>,
-    <<"DecisionSchemaOKModTakeMax", AllDecisionSchemaOKModTakeMax(D)>>,
+    <<"PublishedSchemaOK", Has(run, "jsvalid") => run.jsvalid>>,
     <<"DecisionPlainJSON", AllDecisionPlainJSON(D)>>,
     <<"EmbeddedWellFormed", AllEmbeddedWF(b, D)>>,
     <<"LawHolds", Has(ev, "law") => (~conf /\ Eq(m, ev.expected))>>,
